@@ -31,6 +31,12 @@ type pollRec struct {
 	allowSeq   uint64 // AllowRebalance call after this poll (block mode)
 }
 
+// epochEv: a KIP-848 member was handed another member epoch.
+type epochEv struct {
+	client string
+	seq    uint64
+}
+
 type commitCall struct {
 	idx       int
 	kind      string
@@ -63,6 +69,8 @@ type groupState struct {
 	commits     map[string][]*commitCall // client -> calls
 	wireCmt     []wireCommit
 	topics      []string
+	lastEpoch   map[string]int32
+	epochEvs    []epochEv
 	subs        map[string]map[string]bool // member -> topics it subscribes to (all of gs.topics unless the plan splits subscriptions; a purge removes one)
 	partsOf     map[string]int32
 	nparts      int32
@@ -822,6 +830,13 @@ func (gs *groupState) onResp(r *WireResp) {
 		if resp.MemberEpoch > gs.maxGen {
 			gs.maxGen = resp.MemberEpoch
 		}
+		if resp.ErrorCode == 0 && resp.MemberEpoch != gs.lastEpoch[r.Conn.Client] {
+			if gs.lastEpoch == nil {
+				gs.lastEpoch = map[string]int32{}
+			}
+			gs.lastEpoch[r.Conn.Client] = resp.MemberEpoch
+			gs.epochEvs = append(gs.epochEvs, epochEv{client: r.Conn.Client, seq: r.Seq})
+		}
 		gs.mu.Unlock()
 	case *kmsg.SyncGroupResponse:
 		fence(resp.ErrorCode, "SyncGroup")
@@ -1040,7 +1055,40 @@ func (gs *groupState) checkCommits(admin *RawCli, live map[int]*gmember) {
 				if eo, ok := view[k.t][k.p]; !ok {
 					s.Violf("C09/final/client-view", "%s kept %s/%d and committed offset %d successfully (the coordinator holds it), but CommittedOffsets no longer lists the partition", client, k.t, k.p, o)
 				} else if eo.Offset != o {
-					s.Violf("C09/final/client-view", "%s: CommittedOffsets reports %d for kept partition %s/%d, the last successful commit (and the coordinator's value) is %d", client, eo.Offset, k.t, k.p, o)
+					cls, note := "C09/final/client-view", ""
+					// was any record of the partition returned to the member
+					// between its (last) assignment and the end of the commit?
+					var assignSeq uint64
+					for _, e := range gs.evs {
+						if e.member == client && e.kind == "assign-enter" && e.seq < c.invokeSeq {
+							for _, ek := range e.parts {
+								if ek == k {
+									assignSeq = e.seq
+								}
+							}
+						}
+					}
+					polled := false
+					if m := gs.members[client]; m != nil {
+						for _, pr := range m.polls {
+							if pr.ret > assignSeq && pr.start < c.doneSeq {
+								for _, r := range pr.recs {
+									if r.topic == k.t && r.part == k.p {
+										polled = true
+									}
+								}
+							}
+						}
+					}
+					if !polled {
+						cls, note = "C09/final/client-view/partition-not-polled-since-assignment", " (the member had not been returned a record of the partition since it was assigned, and committed an offset for it all the same)"
+					}
+					for _, ev := range gs.epochEvs {
+						if ev.client == client && ev.seq > c.invokeSeq && ev.seq < c.doneSeq {
+							cls, note = "C09/final/client-view/848-epoch-changed-during-commit", " (KIP-848 group: the member was handed a new member epoch while this commit was in flight)"
+						}
+					}
+					s.Violf(cls, "%s: CommittedOffsets reports %d for kept partition %s/%d, the last successful commit (and the coordinator's value) is %d%s", client, eo.Offset, k.t, k.p, o, note)
 				}
 			}
 			continue
